@@ -12,7 +12,7 @@ from .kernel import _addr_raw
 KINDS_C11 = ('invalid_ke_never_offered', 'foreign_child_response', 'foreign_init_response', 'multi_proposal_request')
 KINDS_C10 = ('bad_reply',)
 KINDS_C17 = ('auth_malformed',)
-KINDS_C12 = ('widen_response', 'flip_mode_response', 'ts_list_request', 'narrow_rekey_response')
+KINDS_C12 = ('widen_response', 'flip_mode_response', 'ts_list_request', 'narrow_rekey_response', 'flip_mode_request')
 
 
 def _rb(r, n):
@@ -450,6 +450,55 @@ def make(kind, seed, world, ip, tap, reach):
             return [(new, 0.0)]
         rule.label = 'byz.auth_malformed'
         return rule, lambda w: None
+
+    # ------------------------------------------------------------------------------------------------------------
+    if kind == 'flip_mode_request':
+        # a peer asking, in a CREATE_CHILD_SA request (new CHILD_SA or rekey), for the mode the policy does not have: refused with
+        # TS_UNACCEPTABLE, nothing installed
+        def rule(meta, data):
+            try:
+                h = R.dec_header(data)
+            except R.DecodeError:
+                return None
+            if h['R'] or h['exch'] != R.CREATE_CHILD_SA:
+                return None
+            opened = ip.open(data)
+            if opened is None:
+                return None
+            _, pls, s = opened
+            sa = next((p for p in pls if p['type'] == R.P_SA), None)
+            if sa is None or not sa['proposals'] or sa['proposals'][0]['proto'] == R.PROTO_IKE:
+                return None
+            r = random.Random(f'byz:{seed}:{meta["key"]}')
+            rekey = any(p['type'] == R.P_NOTIFY and p['ntype'] == R.N_REKEY_SA for p in pls)
+            if r.random() < (0.3 if not rekey else 0.0):
+                return None
+            has = [p for p in pls if p['type'] == R.P_NOTIFY and p['ntype'] == R.N_USE_TRANSPORT_MODE]
+            if has:
+                pls.remove(has[0])
+            else:
+                pls.insert(0, {'type': R.P_NOTIFY, 'proto': 0, 'ntype': R.N_USE_TRANSPORT_MODE, 'spi': b'', 'data': b''})
+            recv = world.net.node_of_addr(meta['dst'])
+            state['tampered'].append({'receiver': recv.name if recv else None, 'receiver_addr': meta['dst'], 'proto': sa['proposals'][0]['proto'],
+                                      'spi_init': sa['proposals'][0]['spi'], 'rekey': rekey, 'id': h['id'], 'I': h['I'], 'key': (h['spi_i'], h['spi_r'])})
+            count('byz.flip_mode_request')
+            count('byz.flip_mode_request.' + ('rekey' if rekey else 'new'))
+            new = ip.seal(s, {'spi_i': h['spi_i'], 'spi_r': h['spi_r'], 'exch': h['exch'], 'I': h['I'], 'R': False, 'id': h['id']}, pls, _rb(r, 16))
+            return [(new, 0.0)]
+        rule.label = 'byz.' + kind
+
+        def verdict(w):
+            for t in state['tampered']:
+                node = w.nodes.get(t['receiver'])
+                if node is None:
+                    continue
+                proto = PROTO_NUM.get(t['proto'])
+                if any(k[1] == proto and k[2] == t['spi_init'] for k in newsa_index(node)):
+                    return ('mode_mismatching_request_installed', {'rekey': t['rekey']},
+                            f'{t["receiver"]} installed an SA towards SPI {t["spi_init"].hex()} for a CREATE_CHILD_SA '
+                            f'{"rekey " if t["rekey"] else ""}request asking for the mode its policy does not have')
+            return None
+        return rule, verdict
 
     # ------------------------------------------------------------------------------------------------------------
     if kind == 'bad_reply':
